@@ -202,8 +202,8 @@ Next ==
                              /\ out' = [expect |-> LGExpect(c')]
        [] Part = "lnest" -> /\ c' \in LNestCases(c.ordered, c.subs)
                             /\ out' = [expect |-> LNestExpect(c')]
-       [] Part = "nested" -> /\ c' \in [kind : {"nested"}, chain : [1..c.n -> Delims]]
-                             /\ out' = [expect |-> NestedExpect(c'.chain)]
+       [] Part = "nested" -> /\ c' \in [kind : {"nested"}, chain : [1..c.n -> Delims], tail : {"none", "default"} \cup Delims]
+                             /\ out' = [expect |-> NestedExpect(NestedFull(c'.chain, c'.tail))]
        [] Part = "square" -> /\ c' \in SquareSpace(c.symmetry)
                              /\ out' = [expect |-> SquareExpect(c')]
        [] Part = "interval" -> /\ c' \in IntervalCases(c.form)
@@ -311,7 +311,10 @@ LawLNest == (IsCase /\ c.kind = "lnest") =>
   /\ (c.oform = "pair" /\ ~c.oordered) => out.expect = "reject"
 \* nested: acceptance iff the chain is injective; a prefix of an accepted chain is accepted
 LawNestedInjective == (IsCase /\ c.kind = "nested") =>
-  ((out.expect = "accept") <=> Cardinality(RangeOf(c.chain)) = Len(c.chain))
+  LET full == NestedFull(c.chain, c.tail) IN
+  /\ (out.expect = "accept") <=> Cardinality(RangeOf(full)) = Len(full)
+  /\ out.expect = "accept" => NestedExpect(c.chain) = "accept"          \* an IntervalGrader at the end only adds a delimiter
+  /\ (c.tail = "default") => out.expect = NestedExpect(NestedFull(c.chain, "comma"))
 LawNestedPrefix == (IsCase /\ c.kind = "nested" /\ out.expect = "accept" /\ Len(c.chain) > 1) =>
   NestedExpect(SubSeq(c.chain, 1, Len(c.chain) - 1)) = "accept"
 \* square: hermitian symmetry makes the complex flag irrelevant; no symmetry and no determinant is always accepted
